@@ -154,6 +154,12 @@ def removeAssembly (s : St) (core a : Nat) (sfp : Option Nat) : St × Bool :=
   let r := remove s core a
   if r.2 then (match sfp with | none => r | some p => excoreAdd r.1 p a) else r
 
+/-- `obj.setType(typ, flags)` / `obj.p.flags = …`: the type name and flags of one object change; nothing structural
+(the traversal queries are functions of the CURRENT state: there is no per-object cache in the model to go stale) -/
+def setMeta (s : St) (c flags typ : Nat) : St :=
+  { s with flags := fun x => if x = c then flags else s.flags x
+           typ := fun x => if x = c then typ else s.typ x }
+
 /-- loop body shared by removeAll/setChildren: stop at the first exception -/
 def seqOps (f : St → Nat → St × Bool) (s : St) (l : List Nat) : St × Bool :=
   l.foldl (fun acc c => if acc.2 then f acc.1 c else acc) (s, true)
@@ -375,7 +381,8 @@ then `self.setChildren(tempBlock.getChildren())` (parameters: C16) -/
 def replaceBlock (s : St) (b r : Nat) : St × Bool :=
   let s1 := copyTree s r
   let t := s.next
-  setChildren (dropKids s1 t) b (s1.kids t)
+  -- `self.p = tempBlock.p` (all but a few skipped parameters): the block takes the replacement's type name and flags
+  setChildren (setMeta (dropKids s1 t) b (s.flags r) (s.typ r)) b (s1.kids t)
 
 /-! ### the op alphabet of `inv_run` -/
 
